@@ -808,3 +808,35 @@ for _p, _r, _d in (("C05", "C05.R12", "the stored value of a literal does not de
 
 RULES.setdefault("C07", []).append(Rule("C07.R11", "lexical forms reach their datatype's parser unmodified (shared with C05.R10): the RDF reader hands typed literals to the same table", 4, lexical_passthrough, "F-PATH",
                                         "xsd:string values keep leading and trailing white space through the RDF round trip"))
+
+
+# ------------------------------------------------------------------------------------------ literal datatypes are homed like every other name
+def literal_datatype_homed(ctx: Ctx, rule):
+    """Every qualified name a record holds is printed with a prefix, so its namespace must be declared in the record's container.
+    Attribute names and name-valued attributes go through valid_qualified_name (which registers the namespace); a Literal kept as a
+    Literal carries one more qualified name - its datatype.  The literal converter must home that one too."""
+    res = RuleResult()
+    q = M + ".ProvRecord._auto_literal_conversion"
+    if q not in ctx.p.functions:
+        raise AnalysisError("anchor vanished: function %s" % q)
+    homed = []
+    for q2 in ctx.helper_closure(q, 2):
+        fi = ctx.fn(q2)
+        for c in calls_in(fi.node):
+            if call_name(c) == "valid_qualified_name" and c.args:
+                a = resolve_local(fi.node, c.args[0])
+                if isinstance(a, ast.Attribute) and ctx.canon_field(M + ".Literal", a.attr) == "datatype":
+                    homed.append((q2, c))
+    returns_literal = any(isinstance(n, ast.Return) and isinstance(n.value, ast.Name) for n in walk_function(ctx.fn(q).node))
+    res.ob("the literal converter can hand back a Literal unchanged: %s; it homes the literal's datatype through valid_qualified_name: %s" % (returns_literal, bool(homed)))
+    if returns_literal and not homed:
+        res.fail(rule.id, "literal-datatype-not-homed", ctx.loc(q, ctx.fn(q).node),
+                 "_auto_literal_conversion keeps a Literal whose datatype's namespace was never registered in the record's container",
+                 "entity with ex:v = Literal('abc', datatype=foo:T), foo declared nowhere: JSON is written with 'type': 'foo:T' and no prefix foo - the reload drops the datatype; the XML reload raises; PROV-N prints an undeclared prefix")
+    return res
+
+
+for _p, _r, _d in (("C01", "C01.R14", "the JSON text declares every prefix it uses, datatypes of literals included"), ("C02", "C02.R13", "the XML text declares every prefix it uses (xsi:type values included)"),
+                   ("C05", "C05.R13", "a stored Literal's datatype is a name of the record's own container"), ("C06", "C06.R13", "every prefix printed in PROV-N is declared"),
+                   ("C10", "C10.R14", "an independent reader can resolve the datatype of every literal")):
+    RULES.setdefault(_p, []).append(Rule(_r, "the datatype of a Literal that stays a Literal is homed in the container like any other qualified name", 1, literal_datatype_homed, "F-OWN", _d))
